@@ -819,6 +819,7 @@ pub fn orphan_cases(depth: usize) -> i64 {
 
 fn orphan_guard(p: &Params) -> Program {
     let e0 = p.get("e0", 0) as usize;
+    let two = p.get("orphan", 0) == 2;
     let mut idx = p.get("case", 0);
     let mut len = 0;
     let mut block = 1i64;
@@ -844,7 +845,25 @@ fn orphan_guard(p: &Params) -> Program {
             let h = ew.collector.register();
             let mut g = h.pin();
             let addr = cv::ebr::guard_local_state(&g).unwrap().addr;
+            // with `two`, a second guard exists when the handle goes away and is dropped first:
+            // the participant must survive that drop
+            let second = if two { Some(h.pin()) } else { None };
             drop(h);
+            if let Some(g2) = second {
+                drop(g2);
+                let st = cv::ebr::guard_local_state(&g).unwrap();
+                if !st.pinned || st.guard_count != 1 || !mon().locals.contains_key(&addr) {
+                    bad(format!("after dropping one of two guards of a participant without handle: pinned={} guard_count={} registered={}", st.pinned, st.guard_count, mon().locals.contains_key(&addr)));
+                }
+                for _ in 0..3 {
+                    let pg = peer.pin();
+                    cv::ebr::try_advance(&ew.collector, &pg);
+                }
+                let ge = cv::ebr::global_epoch(&ew.collector);
+                if ge.wrapping_sub(st.epoch) > 1 {
+                    bad(format!("after dropping one of two guards of a participant without handle the other guard (epoch {}) does not hold the global epoch back (now {})", st.epoch, ge));
+                }
+            }
             for (step, &s) in seq.iter().enumerate() {
                 mon().mix(0x1680 ^ ((s as u64) << 8) ^ ((step as u64) << 16));
                 let r = std::panic::catch_unwind(std::panic::AssertUnwindSafe(|| match s {
